@@ -172,7 +172,7 @@ pub fn corpus(rng: &mut Rng) -> Vec<(String, Vec<u8>)> {
             let (w, h) = if il { (5, 3) } else { (3, 4) };
             let (g, _) = gen_grid(rng, ct, depth, w, h);
             let img = g.pack(il);
-            let mut enc = EncOpts { level: 6, idat_parts: 1 + k % 2, ..Default::default() };
+            let mut enc = EncOpts { level: 6, idat_parts: 1 + k % 2, empty_idat: [0u8, 1, 0, 9, 0, 6, 0, 3][k % 8], ..Default::default() };
             if k % 3 == 0 {
                 enc.pre_plte.push((*b"gAMA", vec![0, 0, 0xb1, 0x8f]));
                 enc.pre_idat.push((*b"bKGD", if ct == 3 { vec![0] } else if ct == 0 || ct == 4 { vec![0, 1] } else { vec![0, 1, 0, 2, 0, 3] }));
@@ -417,6 +417,49 @@ pub fn mutations(rng: &mut Rng, file: &[u8], stride: usize) -> Vec<(String, Vec<
     out
 }
 
+
+/// All mutations of all corpus files, then a selection of at most `n` that gives every mutation kind
+/// its share (round-robin over the kinds, random order within a kind), so that the rare kinds -
+/// animation fields, profile and manifest payloads - are run at every tier.
+pub fn selected_mutations(rng: &mut Rng, files: &[(String, Vec<u8>)], stride: usize, n: usize, with_identity: bool, max_len: usize) -> (Vec<(String, String, Vec<u8>)>, usize) {
+    let mut all: Vec<(String, String, Vec<u8>)> = vec![];
+    for (fname, file) in files {
+        if with_identity {
+            all.push((fname.clone(), "identity".into(), file.clone()));
+        }
+        for (mname, m) in mutations(rng, file, stride) {
+            if m.len() <= max_len {
+                all.push((fname.clone(), mname, m));
+            }
+        }
+    }
+    let kind_of = |mname: &str| mname.split(|c| c == '@' || c == '#' || c == ':' || c == '=').next().unwrap_or("?").to_string();
+    let mut by_kind: std::collections::BTreeMap<String, Vec<usize>> = Default::default();
+    for (k, (_, mname, _)) in all.iter().enumerate() {
+        by_kind.entry(kind_of(mname)).or_default().push(k);
+    }
+    for v in by_kind.values_mut() {
+        for a in (1..v.len()).rev() {
+            let b = rng.below(a as u64 + 1) as usize;
+            v.swap(a, b);
+        }
+    }
+    let mut order: Vec<usize> = vec![];
+    let mut round = 0usize;
+    while order.len() < n.min(all.len()) {
+        for v in by_kind.values() {
+            if let Some(&k) = v.get(round) {
+                order.push(k);
+            }
+        }
+        round += 1;
+    }
+    order.truncate(n);
+    let total = all.len();
+    let mut slots: Vec<Option<(String, String, Vec<u8>)>> = all.into_iter().map(Some).collect();
+    (order.into_iter().filter_map(|k| slots[k].take()).collect(), total)
+}
+
 /// bound on the heap a run may request: a fixed multiple of what the bytes present could decode to
 /// (deflate expands by at most 1032) plus a fixed allowance for the optimiser's own tables
 pub fn alloc_bound(input_len: usize) -> usize {
@@ -430,13 +473,11 @@ pub fn oracle(ctx: &mut Ctx) {
     st.add("corpus_files", files.len() as u64);
     let stride = if ctx.tier_thorough { 1 } else { 7 };
     let mut w = Worker::spawn();
-    let mut n_done = 0usize;
-    'outer: for (fname, file) in &files {
-        for (mname, m) in mutations(&mut rng, file, stride) {
-            if n_done >= ctx.n {
-                break 'outer;
-            }
-            n_done += 1;
+    let (selected, total) = selected_mutations(&mut rng, &files, stride, ctx.n, false, usize::MAX);
+    st.add("mutations_available", total as u64);
+    {
+        for (fname, mname, m) in selected {
+            let fname = &fname;
             let mut opts = gen_opts(&mut rng, Profile::Any, false);
             opts.fix_errors = rng.bool();
             if let Err(_) = opts.deflate {
@@ -532,19 +573,12 @@ pub fn corr(ctx: &mut Ctx) {
     let mut st = Stats::default();
     let files = corpus(&mut rng);
     let stride = if ctx.tier_thorough { 3 } else { 23 };
-    let mut n_done = 0usize;
-    'outer: for (fname, file) in &files {
-        let mut muts = mutations(&mut rng, file, stride);
-        muts.insert(0, ("identity".into(), file.clone()));
-        for (mname, m) in muts {
-            if n_done >= ctx.n {
-                break 'outer;
-            }
-            // keep requests of moderate size for the driver
-            if m.len() > 1500 {
-                continue;
-            }
-            n_done += 1;
+    // (requests are kept of moderate size for the driver)
+    let (selected, total) = selected_mutations(&mut rng, &files, stride, ctx.n, true, 1500);
+    st.add("mutations_available", total as u64);
+    {
+        for (fname, mname, m) in selected {
+            let fname = &fname;
             let strip = gen_strip(&mut rng);
             let fix = rng.bool();
             let mut o = HOpts::from_preset(2);
